@@ -2,7 +2,7 @@
 HELLO whose username AND password equal the configured ones; every token (any length, any content) is handled
 without panic.  Discharges, for PLAIN, the abstract Mechanism contract the engine unit relies on (is_complete)."""
 import re
-from vlib.vx import Fn, Item, Raw
+from vlib.vx import Fn, Item, Raw, Region
 from vlib.runner import Unit
 
 PL = "core/src/security/plain.rs"
@@ -58,6 +58,23 @@ impl PlainMechanism {
 }
 """
 
+INIT_GLUE = """
+// the two fields of ZmtpEngineConfig that initialize_plain reads
+pub struct PlainConfig { pub plain_username_for_engine: Option<String>, pub plain_password_for_engine: Option<String> }
+pub uninterp spec fn str_bytes(s: String) -> Seq<u8>;
+// R8: `opt.as_ref().map(|s| s.as_bytes().to_vec())` (std semantics of Option::map: None stays None)
+#[verifier::external_body]
+pub fn verif_opt_bytes(o: &Option<String>) -> (r: Option<Vec<u8>>)
+  ensures (r is None) == (*o is None), r matches Some(v) ==> v@ == str_bytes(o->0)
+{ unimplemented!() }
+impl PlainMechanism {
+  // client side of initialize_plain: not the subject here
+  #[verifier::external_body]
+  pub fn set_client_credentials(&mut self, username: Option<Vec<u8>>, password: Option<Vec<u8>>)
+    ensures final(self).is_server == old(self).is_server, final(self).state == old(self).state, final(self).expected_username == old(self).expected_username, final(self).expected_password == old(self).expected_password
+  { unimplemented!() }
+}
+"""
 SELFC = [("R5", "Self::CMD_HELLO", "CMD_HELLO", "+")]
 
 parts = [
@@ -74,11 +91,24 @@ parts = [
   Item(PL, "const", "CMD_WELCOME", within=IMPL),
   Item(PL, "const", "CMD_ERROR", within=IMPL),
   Raw(text=GLUE.replace("#[verifier::external_body]\npub struct Metadata { x: u8 }\n", ""), label="plain-glue"),
+  Raw(text=INIT_GLUE, label="plain-init-glue"),
   Fn(PL, "new", impl=IMPL, emit_impl="impl PlainMechanism",
-     ensures=[("C06:starts_unauthenticated", "r.inv() && !(r.state is Ready) && r.is_server == is_server && r.expected_username is None && r.expected_password is None")]),
+     ensures=[("C06:starts_unauthenticated", "r.inv() && !(r.state is Ready) && !(r.state is ServerSendWelcome) && r.is_server == is_server && r.expected_username is None && r.expected_password is None")]),
   Fn(PL, "set_server_expected_credentials", impl=IMPL, emit_impl="impl PlainMechanism",
      requires=["!(old(self).state is ServerSendWelcome) && !(old(self).state is Ready)"],
-     ensures=[("C06:inv", "final(self).inv()"), ("C06:state_frame", "final(self).state == old(self).state && final(self).is_server == old(self).is_server")]),
+     ensures=[("C06:inv", "final(self).inv()"), ("C06:state_frame", "final(self).state == old(self).state && final(self).is_server == old(self).is_server"),
+              ("C06:a_server_expects_exactly_the_credentials_given", "old(self).is_server ==> final(self).expected_username == username && final(self).expected_password == password")]),
+  # security/mod.rs initialize_plain (region: everything before the boxing): a listener's expected credentials are exactly the configured ones --
+  # an option that was never set stays "no valid value" (None), it is NOT the empty string
+  Region("core/src/security/mod.rs", "initialize_plain_mech", "initialize_plain", r"let ", r"Ok\(Box::new\(plain_mech\)\)",
+         sig="fn initialize_plain_mech(is_server: bool, local_config: &PlainConfig) -> (r: PlainMechanism)", tail="plain_mech",
+         ensures=[("C06:the_mechanism_plays_the_role_it_was_asked_to_play", "r.is_server == is_server"),
+                  ("C06:a_listener_expects_exactly_the_configured_credentials_unset_stays_unset",
+                   "is_server ==> (r.expected_username is None) == (local_config.plain_username_for_engine is None) && (r.expected_password is None) == (local_config.plain_password_for_engine is None) "
+                   "&& (r.expected_username matches Some(u) ==> u@ == str_bytes(local_config.plain_username_for_engine->0)) && (r.expected_password matches Some(pw) ==> pw@ == str_bytes(local_config.plain_password_for_engine->0))"),
+                  ("C06:starts_unauthenticated", "!(r.state is Ready) && !(r.state is ServerSendWelcome)")],
+         extra=[("R8", re.compile(r"local_config\s*\.plain_username_for_engine\s*\.as_ref\(\)\s*\.map\(\|s\| s\.as_bytes\(\)\.to_vec\(\)\)", re.S), "verif_opt_bytes(&local_config.plain_username_for_engine)", 1),
+                ("R8", re.compile(r"local_config\s*\.plain_password_for_engine\s*\.as_ref\(\)\s*\.map\(\|s\| s\.as_bytes\(\)\.to_vec\(\)\)", re.S), "verif_opt_bytes(&local_config.plain_password_for_engine)", 1)]),
   Fn(PL, "parse_hello_body", impl=IMPL, emit_impl="impl PlainMechanism",
      ensures=[("C06+C07:ok_iff_wellformed", "r is Ok <==> hello_ok(body@)"),
               ("C06:fields", "r matches Ok(p) ==> p.0@ == hello_user(body@) && p.1@ == hello_pass(body@)")],
